@@ -240,7 +240,7 @@ def corpus_tensors():
 class Ctx:
     def __init__(self, res, impl):
         self.res, self.impl = res, impl
-        self.n = {'definitions': 0, 'rotation': 0, 'scaling': 0, 'columns_rows': 0, 'integer': 0,
+        self.n = {'kept_accessor_frames': 0, 'definitions': 0, 'rotation': 0, 'scaling': 0, 'columns_rows': 0, 'integer': 0,
                   'sign_checks_skipped_near_zero_indicator': 0, 'raised': 0}
         self.nontrivial = set()
         self.nan_seen = set()
@@ -438,6 +438,31 @@ def rel_columns(cx, T, index_kind, seed):
                 cx.bad('column input and scalar input differ in a row', function=fn, row=i, column=np.asarray(cv[i]).tolist(),
                        scalar=sv.tolist(), **base)
                 break
+
+    # A kept accessor object after an in-place update of its frame: whatever it reports must again be ONE consistent set of numbers --
+    # those of the updated frame (the accessor references the frame) or those of the frame at creation (a snapshot); a mixture
+    # (some quantities cached, others recomputed) makes the accessor disagree with the plain functions for every frame content.
+    try:
+        eq = df.equistress
+        first = {fn: np.asarray(getattr(eq, fn)().to_numpy(), dtype=float) for fn in FUNCS}
+        first['principals'] = np.asarray(eq.principals().to_numpy(), dtype=float)
+        T2 = [tuple(-2.5 * x for x in t[:3]) + tuple(3.5 * x for x in t[3:]) for t in T]
+        df.iloc[:, :] = np.array(T2, dtype=float).reshape(-1, 6)
+        again = {fn: np.asarray(getattr(eq, fn)().to_numpy(), dtype=float) for fn in FUNCS}
+        again['principals'] = np.asarray(eq.principals().to_numpy(), dtype=float)
+        col2 = cx.impl.columns(T2)
+    except Exception as e:
+        cx.bad('kept accessor raises after an in-place update of the frame', error=repr(e), **base)
+        return
+    cx.n['kept_accessor_frames'] += 1
+
+    def agree(x, y):
+        return x.shape == y.shape and all(same(x[i], y[i], 1e-9 * (fnorm(T[i]) * 3.5) + 1e-300) for i in range(n))
+    new_ok = {fn: agree(again[fn], np.asarray(col2[fn], dtype=float)) for fn in again}
+    old_ok = {fn: agree(again[fn], first[fn]) for fn in again}
+    if not (all(new_ok.values()) or all(old_ok.values())):
+        cx.bad('kept accessor mixes numbers of the updated frame and of the frame before the update', updated_tensors=[list(t) for t in T2],
+               follow_update=sorted(k for k, v in new_ok.items() if v), stale=sorted(k for k, v in new_ok.items() if not v), **base)
 
 
 INT_RANGE = {'int32': 31, 'int64': 63, 'pyint': 63}
